@@ -237,6 +237,13 @@ theorem byte_backslash_counterexample :
     ∧ extract exPostgresByte (byteSql exPostgresByte ['\\', 'n'] ++ [exPostgresByte.q]) = .ok ['\n'] [] := by
   decide +kernel
 
+/-- The general `_extract_string` model used by the token-level model for multi-character delimiters and raw strings
+    (`extractG`) coincides, for a one-character delimiter and a non-raw string, with the model the round-trip theorems
+    are about — the two models of the same Python loop cannot drift apart. -/
+theorem general_extract_specialises (c : Cfg) (rawEsc : Bool) (s : List Char) :
+    extractG c [c.q] false rawEsc s = extract c s :=
+  extractG_single c rawEsc s
+
 /-! ### dispatch tables and the extended pairings extracted from the current source -/
 
 open SqlglotModel.Generated.C04 in
